@@ -596,7 +596,7 @@ func c13Run(c *mc.Ctx) {
 			if !c.Mine(idx) {
 				continue
 			}
-			if k&0xFFFF == 0 && c.Expired() {
+			if c.Due(0xFFFF) {
 				c.Note(fmt.Sprintf("deadline hit in lex level len=%d", lv.n))
 				return
 			}
@@ -660,7 +660,7 @@ func c13Run(c *mc.Ctx) {
 			if !c.Mine(idx) {
 				continue
 			}
-			if k&0xFFFF == 0 && c.Expired() {
+			if c.Due(0xFFFF) {
 				c.Note(fmt.Sprintf("deadline hit in word level len=%d", n))
 				return
 			}
@@ -717,7 +717,7 @@ func c13Run(c *mc.Ctx) {
 			if !c.Mine(idx) {
 				continue
 			}
-			if k&0xFFFF == 0 && c.Expired() {
+			if c.Due(0xFFFF) {
 				c.Note("deadline hit in backtick texts")
 				return
 			}
@@ -762,7 +762,7 @@ func c13Run(c *mc.Ctx) {
 			if !c.Mine(idx) {
 				continue
 			}
-			if k&0xFFFF == 0 && c.Expired() {
+			if c.Due(0xFFFF) {
 				c.Note(fmt.Sprintf("deadline hit in round trip len=%d", n))
 				return
 			}
